@@ -26,6 +26,8 @@ fn main() {
         "clientgroups" => auth::run_clientgroups(&args),
         "adversary" => auth::run_adversary(&args),
         "degenerate" => auth::run_degenerate(&args),
+        "ownkey" => auth::run_ownkey(&args),
+        "pubkeysweep" => auth::run_pubkeysweep(&args),
         "norm" => aux::run_norm(&args),
         "pin" => aux::run_pin(&args),
         "integrity" => aux::run_integrity(&args),
